@@ -64,3 +64,10 @@ package lib
 //@   ensures[bound] err == nil ==> block != nil && block.BlockHeader != nil && x.Header.Height == block.BlockHeader.Height && block.BlockHeader.Height == height && x.Results != nil
 //@   ensures[hash] err == nil ==> bytes(x.BlockHash) == headerDigest(block.BlockHeader)
 //@   ensures[frame] unchanged(x.Header, x.Block, x.BlockHash, x.ResultsHash, x.Results, x.Signature) && unchanged(x.Header.Height, x.Header.Phase, x.Header.NetworkId, x.Header.ChainId, x.Header.RootHeight)
+
+// viewLess: lexicographic order on (Height, RootHeight, Round, Phase)
+//@ spec func viewLess(a *View, b *View) bool = a.Height < b.Height || (a.Height == b.Height && (a.RootHeight < b.RootHeight || (a.RootHeight == b.RootHeight && (a.Round < b.Round || (a.Round == b.Round && a.Phase < b.Phase)))))
+
+//@ func (*View).Less
+//@   pure
+//@   ensures[order] result == (v != nil && (x == nil || viewLess(x, v)))
